@@ -24,6 +24,7 @@ BIN = {
     "prpull": CPU + "/pagerank/pagerank-pull-cpu", "mis": CPU + "/independentset/maximal-independentset-cpu",
     "bfs-dist": DIST + "/bfs/bfs-%s-dist", "sssp-dist": DIST + "/sssp/sssp-%s-dist",
     "cc-dist": DIST + "/connected-components/connected-components-%s-dist", "kcore-dist": DIST + "/k-core/k-core-%s-dist",
+    "pr-dist": DIST + "/pagerank/pagerank-%s-dist",
 }
 ALGOS = {
     "bfs": ["AsyncTile", "Async", "SyncTile", "Sync"],
@@ -35,7 +36,7 @@ ALGOS = {
     "prpull": ["Topo", "Residual"],
     "mis": ["serial", "pull", "nondet", "detBase", "prio", "edgetiledprio"],
 }
-APPS = ["bfs", "sssp", "cc", "mst", "tc", "kcore", "pfp", "prpush", "prpull", "mis", "bfs-dist", "sssp-dist", "cc-dist", "kcore-dist"]
+APPS = ["bfs", "sssp", "cc", "mst", "tc", "kcore", "pfp", "prpush", "prpull", "mis", "bfs-dist", "sssp-dist", "cc-dist", "kcore-dist", "pr-dist"]
 # the registered check runs two units: the shared-memory applications (cheap, many cases) and the distributed ones
 _sel = os.environ.get("C20_APPS", "")
 if _sel == "cpu":
@@ -215,7 +216,7 @@ def check(case, work):
     app = case["app"]
     n, es = build_graph(case)
     threads = case["threads"]
-    if case["shape"] == "star-forest" and app not in ("bfs", "sssp", "cc", "prpush", "prpull"):
+    if case["shape"] == "star-forest" and app not in ("bfs", "sssp", "cc", "prpush", "prpull", "pr-dist"):
         case = dict(case, shape="hub")  # the large shape only where the reference is cheap
         n, es = build_graph(case)
     labels = {"app": app, "threads": threads, "shape": case["shape"], "n": "<=12" if n <= 12 else "<=60" if n <= 60 else "<=400" if n <= 400 else ">400"}
@@ -266,8 +267,8 @@ def check(case, work):
             outd = os.path.join(work, "out")
             os.system("rm -rf %s; mkdir -p %s" % (outd, outd))
             cmd = [BIN[app] % pp, gr, "-graphTranspose=" + tgr] + t + ["-startNode=%d" % start, "-output", "-outputLocation=" + outd,
-                                                                          "-partition=" + case["policy"], "-runs=1"]
-            labels.update(hosts=hosts, policy=case["policy"], pushpull=pp)
+                                                                          "-partition=" + case["policy"], "-runs=1", "-exec=" + ["Async", "Sync"][case["param"] % 2]]
+            labels.update(hosts=hosts, policy=case["policy"], pushpull=pp, exec=["Async", "Sync"][case["param"] % 2])
             txt = run_app(cmd, work, min(threads, 2), hosts=hosts)
             got = {}
             for f in os.listdir(outd):
@@ -321,8 +322,8 @@ def check(case, work):
             hosts, pp = case["hosts"], case["pushpull"]
             outd = os.path.join(work, "out")
             os.system("rm -rf %s; mkdir -p %s" % (outd, outd))
-            cmd = [BIN[app] % pp, gr, "-symmetricGraph"] + t + ["-output", "-outputLocation=" + outd, "-partition=" + case["policy"], "-runs=1"]
-            labels.update(hosts=hosts, policy=case["policy"], pushpull=pp)
+            cmd = [BIN[app] % pp, gr, "-symmetricGraph"] + t + ["-output", "-outputLocation=" + outd, "-partition=" + case["policy"], "-runs=1", "-exec=" + ["Async", "Sync"][case["param"] % 2]]
+            labels.update(hosts=hosts, policy=case["policy"], pushpull=pp, exec=["Async", "Sync"][case["param"] % 2])
             run_app(cmd, work, min(threads, 2), hosts=hosts)
             got = {}
             for f in os.listdir(outd):
@@ -386,8 +387,8 @@ def check(case, work):
                 outd = os.path.join(work, "out")
                 os.system("rm -rf %s; mkdir -p %s" % (outd, outd))
                 cmd = [BIN[app] % pp, gr, "-symmetricGraph"] + t + ["-kcore=%d" % k, "-output", "-outputLocation=" + outd,
-                                                                    "-partition=" + case["policy"], "-runs=1"]
-                labels.update(hosts=hosts, policy=case["policy"], pushpull=pp)
+                                                                    "-partition=" + case["policy"], "-runs=1", "-exec=" + ["Async", "Sync"][case["param"] % 2]]
+                labels.update(hosts=hosts, policy=case["policy"], pushpull=pp, exec=["Async", "Sync"][case["param"] % 2])
                 run_app(cmd, work, min(threads, 2), hosts=hosts)
                 got = {}
                 for f in os.listdir(outd):
@@ -456,6 +457,53 @@ def check(case, work):
         if got != want:
             raise Violation("wrong-flow", "app says flow %d, max-flow %d (n=%d, %d arcs, %d->%d, variant %d)" % (got, want, n, len(cap), src, snk, var))
         return labels, threads >= 2 and len(cap) >= 3
+    if app == "pr-dist":
+        # distributed PageRank (push and pull): same unnormalised definition as the shared-memory apps
+        adj = [[] for _ in range(n)]
+        tadj = [[] for _ in range(n)]
+        seen = set()
+        for (s, d, w) in es:
+            if (s, d) in seen:
+                continue
+            seen.add((s, d))
+            adj[s].append((d, None))
+            tadj[d].append((s, None))
+        write_gr(gr, n, adj, "void")
+        write_gr(tgr, n, tadj, "void")
+        hosts, pp = case["hosts"], case["pushpull"]
+        outd = os.path.join(work, "out")
+        os.system("rm -rf %s; mkdir -p %s" % (outd, outd))
+        ex = ["Async", "Sync"][case["param"] % 2]
+        cmd = [BIN[app] % pp, gr, "-graphTranspose=" + tgr] + t + ["-output", "-outputLocation=" + outd, "-partition=" + case["policy"], "-runs=1",
+                                                                      "-exec=" + ex, "-tolerance=1e-6", "-maxIterations=10000"]
+        labels.update(hosts=hosts, policy=case["policy"], pushpull=pp, exec=ex)
+        run_app(cmd, work, min(threads, 2), hosts=hosts)
+        got = {}
+        for f in os.listdir(outd):
+            for line in open(os.path.join(outd, f)):
+                q = line.split()
+                if len(q) == 2:
+                    got[int(q[0])] = float(q[1])
+        if len(got) != n:
+            raise Violation("output-incomplete", "%d of %d nodes in the output files" % (len(got), n))
+        out = [len(a) for a in adj]
+        r = [0.15] * n
+        for _ in range(2000):
+            nr = [0.15] * n
+            for u in range(n):
+                if out[u]:
+                    c = 0.85 * r[u] / out[u]
+                    for (v, _) in adj[u]:
+                        nr[v] += c
+            delta = max(abs(a - b) for a, b in zip(r, nr))
+            r = nr
+            if delta < 1e-10:
+                break
+        for v in range(n):
+            if abs(got[v] - r[v]) > 1e-3 * max(1.0, r[v]):
+                raise Violation("wrong-rank", "node %d: app rank %.6f, power iteration %.6f (n=%d, %s, %d hosts, %s, %s)" %
+                                (v, got[v], r[v], n, pp, hosts, case["policy"], ex))
+        return labels, hosts >= 2 and len(seen) >= 3
     if app in ("prpush", "prpull"):
         adj = [[] for _ in range(n)]
         tadj = [[] for _ in range(n)]
